@@ -52,7 +52,7 @@ func (handler *Resource) ServeHTTP(response http.ResponseWriter, request *http.R
 }
 
 func (r *Resource) postResource(resp http.ResponseWriter, req *http.Request) error {
-	body, err := ioutil.ReadAll(req.Body)
+	body, err := ioutil.ReadAll(http.MaxBytesReader(resp, req.Body, maxRequestBodySize))
 	if err != nil {
 		return err
 	}
